@@ -1075,10 +1075,26 @@ func ruleTrieSameAlphabet(w *core.World, r *core.Report) {
 				if _, isNext := y.Tuple.(*ssa.Next); isNext {
 					k = "rune (range over the string)"
 				}
+				// utf8.DecodeRuneInString yields the same runes as ranging over the string (U+FFFD, width 1, for an invalid byte)
+				if c, isCall := y.Tuple.(*ssa.Call); isCall && y.Index == 0 {
+					if n := core.ResolveCall(c).Name; n == "unicode/utf8.DecodeRuneInString" || n == "unicode/utf8.DecodeRune" {
+						k = "rune (range over the string)"
+					}
+				}
 			case *ssa.Index, *ssa.Lookup:
 				k = "byte (indexing)"
 			case *ssa.UnOp:
 				k = "byte (indexing)"
+				// an element of []rune(s): the same runes again
+				if ia, isIA := y.X.(*ssa.IndexAddr); isIA && y.Op == token.MUL {
+					if cv, isCv := core.Unwrap(ia.X).(*ssa.Convert); isCv {
+						if sl, isSl := cv.Type().Underlying().(*types.Slice); isSl {
+							if b, isB := sl.Elem().Underlying().(*types.Basic); isB && b.Kind() == types.Int32 {
+								k = "rune (range over the string)"
+							}
+						}
+					}
+				}
 			}
 			if kind != "" && kind != k {
 				kind = "mixed"
